@@ -282,7 +282,7 @@ def run(ctx):
             ctx.check("C37-d", "%s#ApplyEntry.command" % fkey(dec), bool(conv) and not literal,
                       "ApplyEntry.command = Command::try_from(..)", "the command applied for a Payload::Command entry is not the converted WriteCommand", loc(b, bi))
     # the leader's write path encodes write_op_to_proto(cmd)
-    callers = [c for c in F.callers_of(lambda k: enc is not None and k == enc.id) if F.bodies[c[1]].crate != "d_engine_proto" and "test" not in c[0]]
+    callers = [c for c in F.callers_of(lambda k: enc is not None and k == enc.id) if F.bodies[c[1]].crate != "d_engine_proto" and not is_test_id(c[0])]
     ctx.floor("C37-d", len(callers), 1, "callers of client_command_to_entry_payloads")
     for (root, bid, bi, t) in callers:
         b = F.bodies[bid]
@@ -320,7 +320,7 @@ def run(ctx):
         # callers in the gRPC client pass their own parameters in the same order
         for (root, bid, bi, t) in F.callers_of(lambda k: k == fn.id):
             b = F.bodies[bid]
-            if b.crate != "d_engine_client" or "test" in root or "mock" in root.lower():
+            if b.crate != "d_engine_client" or is_test_id(root) or "mock" in root.lower():
                 continue
             n += 1
             names = sorted(expect, key=lambda f: expect[f] if isinstance(expect[f], int) else 99)
